@@ -162,12 +162,21 @@ def run_case(case):
 
     index = case["index"]
     ethertype = case["ethertype"]
-    frame = pkt.assemble(index, ethertype)
+    try:
+        frame = pkt.assemble(index, ethertype)
+    except Exception as e:
+        return fail(case, f"assemble() raised {type(e).__name__}: {e} on a "
+                    f"packet of {len(accepted)} accepted datagrams", classes)
     res = check_frame(case, frame, accepted, size, index, ethertype, classes)
     if res is not None:
         return res
     if sterile:
-        sframe = pkt.sterile(index, ethertype)
+        try:
+            sframe = pkt.sterile(index, ethertype)
+        except Exception as e:
+            return fail(case, f"sterile() raised {type(e).__name__}: {e} on "
+                        f"a packet of {len(accepted)} accepted datagrams "
+                        f"(a rejected append must leave no trace)", classes)
         if len(sframe) != len(frame):
             return fail(case, "sterile copy has another length", classes)
         writers = {hdr for spec, _, _, _, hdr in accepted if spec["writer"]}
